@@ -564,7 +564,35 @@ impl Reader {
         writer_guid,
         writer_seq_num,
       ),
-      Err(e) => debug!("Parsing DATA to DDSData failed: {}", e),
+      Err(e) => {
+        debug!("Parsing DATA to DDSData failed: {}", e);
+        // We can make nothing of this DATA, and a retransmission would be just the
+        // same, e.g. the end marker of a coherent set. Count its sequence number as
+        // not available, so that a Reliable stream does not wait for it forever.
+        self.skip_unusable_change(writer_guid, writer_seq_num);
+      }
+    }
+  }
+
+  // A change was received, but there is nothing in it to deliver.
+  // Treat it like a GAP of that one sequence number.
+  fn skip_unusable_change(&mut self, writer_guid: GUID, writer_sn: SequenceNumber) {
+    if self.like_stateless {
+      return;
+    }
+    let (ackable_before_skip, all_ackable_before) = match self.matched_writer_mut(writer_guid) {
+      Some(writer_proxy) => {
+        let before = writer_proxy.all_ackable_before();
+        writer_proxy.set_irrelevant_change(writer_sn);
+        (before, writer_proxy.all_ackable_before())
+      }
+      None => return,
+    };
+    let marker_moved = self
+      .acquire_the_topic_cache_guard()
+      .mark_reliably_received_before(writer_guid, all_ackable_before);
+    if marker_moved || all_ackable_before > ackable_before_skip {
+      self.notify_cache_change();
     }
   }
 
